@@ -182,8 +182,37 @@ def run_case(spec, j):
     yarg = y.tolist() if form == 'list' else y.astype(form)
     det['labels_as'] = form
     sup_err = None
+    # ITML_Supervised.fit takes the distance bounds as a fit argument: any two
+    # numbers in any container, ascending or not, must reach the base learner
+    # as given (the twin receives the same object)
+    fit_kw = {}
+    if name == 'ITML_Supervised' and \
+        (spec['seed'] + 3 * spec['ds']['seed']) % 3 != 0:
+      brng = np.random.RandomState((spec['seed'] * 7919 +
+                                    spec['ds']['seed']) % (2**31 - 1))
+      from scipy.spatial.distance import pdist
+      pd_ = pdist(X[:200])
+      pd_ = pd_[pd_ > 0]
+      if pd_.size:
+        lo, hi = np.percentile(pd_, [brng.uniform(5, 40),
+                                     brng.uniform(60, 95)])
+        pair_ = [float(lo), float(hi)]
+        if brng.rand() < 0.5:
+          pair_ = pair_[::-1]
+        kind_ = ['list', 'tuple', 'array', 'int-array'][brng.randint(4)]
+        if kind_ == 'tuple':
+          pair_ = tuple(pair_)
+        elif kind_ == 'array':
+          pair_ = np.array(pair_)
+        elif kind_ == 'int-array':
+          pair_ = np.array([max(1, int(round(v))) for v in pair_])
+          if pair_[0] == pair_[1]:
+            pair_[1] += 1
+        fit_kw['bounds'] = pair_
+        det['bounds'] = pair_
+        j.count('C08.itml-explicit-bounds')
     try:
-      sup.fit(X, yarg)
+      sup.fit(X, yarg, **fit_kw)
     except Exception as e:
       api.set_well_formed(False)
       if name == 'SDML_Supervised' and isinstance(e, RuntimeError):
@@ -238,7 +267,7 @@ def run_case(spec, j):
               idx = np.vstack([np.column_stack([a, b]),
                                np.column_stack([c, dd])])
               lab = np.r_[np.ones(len(a)), -np.ones(len(c))]
-              twins.append(Base(**bp).fit(X[idx], lab))
+              twins.append(Base(**bp).fit(X[idx], lab, **fit_kw))
             else:
               a, b, c, dd = Constraints(y).positive_negative_pairs(
                   nc, same_length=True, random_state=seed)
@@ -306,7 +335,7 @@ def run_case(spec, j):
     from sklearn.base import clone
     with Quiet():
       try:
-        sub = clone(sup).fit(X[known], y[known])
+        sub = clone(sup).fit(X[known], y[known], **fit_kw)
         j.close('C08.subset-equal', sub.get_mahalanobis_matrix(), Msup,
                 1e-10 * scale, det)
       except Exception as e:
